@@ -115,7 +115,7 @@ Contained ==
 NoMisdelivery ==
     \A c \in DOMAIN w.cq : \A i \in 1..Len(w.cq[c].q) :
         w.cq[c].q[i].kind = "delivery" =>
-            /\ c = "c1"
-            /\ w.cq[c].q[i].msg.meth.consumer_tag = "t1"
-            /\ w.cq[c].q[i].msg.meth.ch = 1
+            LET meth == w.cq[c].q[i].msg.meth IN
+            IF c = "c1" THEN meth.consumer_tag = "t1" /\ meth.ch = 1
+            ELSE c = meth.consumer_tag \o "@" \o ToString(meth.ch)
 =============================================================================
